@@ -15,11 +15,11 @@
 #define LOCKS_FINE      (!LOCK_FAILED && !UNLOCK_FAILED)
 /* nothing read or written outside the critical section: the object at the first lock() is the entry
  * object, and the returned object is the object as it was at unlock() */
-#define NOTHING_OUTSIDE ((HAS_MUTEX && EL.lock_ret == 0) ==> (p_at_same(&g_old, &EL.at_lock, 0) && p_un_same(&g_old, &EL.at_lock) && p_at_same(&EL.at_unlock, self, 0) && p_un_same(&EL.at_unlock, self)))
+#define NOTHING_OUTSIDE (!(HAS_MUTEX && EL.lock_ret == 0) || (p_at_same(&g_old, &EL.at_lock, 0) && p_un_same(&g_old, &EL.at_lock) && p_at_same(&EL.at_unlock, self, 0) && p_un_same(&EL.at_unlock, self)))
 #define API_POST    (HAS_MUTEX && EL.lock_ret == 0 ? &EL.at_unlock : self)
 #ifdef H_LOCKRULE
 #undef NOTHING_OUTSIDE
-#define NOTHING_OUTSIDE ((HAS_MUTEX && EL.lock_ret == 0) ==> (p_at_same(&g_old, &EL.at_lock, 0) && p_un_same(&g_old, &EL.at_lock)))
+#define NOTHING_OUTSIDE (!(HAS_MUTEX && EL.lock_ret == 0) || (p_at_same(&g_old, &EL.at_lock, 0) && p_un_same(&g_old, &EL.at_lock)))
 #define API_LOCKRULE_ASSIGNS , self->unsolicited_fsm.unsolicited_cmd_buffer, self->unsolicited_fsm.unsolicited_cmd_buffer_tail, self->unsolicited_fsm.unsolicited_cmd_buffer_head, self->unsolicited_fsm.unsolicited_cmd_buffer_items_count, self->hold_exit_status
 #else
 #define API_LOCKRULE_ASSIGNS
